@@ -304,11 +304,12 @@ class Check:
             print("KNOWN-FINDING: property=%s %s %s (witnessed by %d scenario(s))" % (self.prop, fid, k.get("observed", k.get("what", "")), n))
         self.cov["known_findings_witnessed"] = dict(self.known_seen)
         rc = 0
-        os.makedirs(os.path.join(VERIF, "replays"), exist_ok=True)
+        rdir = os.environ.get("VERIF_REPLAY_DIR", os.path.join(VERIF, "replays"))
+        os.makedirs(rdir, exist_ok=True)
         shown = 0
         for what, replay in self.violations:
             rid = case_id(replay)
-            rp = os.path.join(VERIF, "replays", "%s-%s.json" % (self.prop, rid))
+            rp = os.path.join(rdir, "%s-%s.json" % (self.prop, rid))
             with open(rp, "w") as f:
                 json.dump({"property": self.prop, "what": what, "replay": replay}, f, indent=1, sort_keys=True)
             if shown < 20:
@@ -322,8 +323,9 @@ class Check:
         if self.cov["states"] == 0:
             self.cov.pop("states")
             self.cov.pop("transitions")
-        os.makedirs(os.path.join(VERIF, "evidence"), exist_ok=True)
-        with open(os.path.join(VERIF, "evidence", self.prop + ".json"), "w") as f:
+        edir = os.environ.get("VERIF_EVIDENCE_DIR", os.path.join(VERIF, "evidence"))
+        os.makedirs(edir, exist_ok=True)
+        with open(os.path.join(edir, self.prop + ".json"), "w") as f:
             json.dump(ev, f, indent=1, sort_keys=True)
         log("[done] %s tier=%s seed=%d wall=%.1fs violations=%d" % (self.prop, self.tier, self.seed, wall, len(self.violations)))
         return rc
